@@ -61,7 +61,7 @@ C03 = [
     A('select_own_default', SEL_FNS, B_SEL + CALLCTX),
     A('select_default_own', SEL_FNS, B_SEL + CALLCTX),
     A('select_create_own_default', SEL_FNS, B_SEL + '; context: CreateContractHostFn', tier='thorough'),
-    A('select_create_ctor_own_own', SEL_FNS, B_SEL + '; context: CreateContractWithCtorHostFn', tier='thorough'),
+    A('select_create_ctor_one_own_rule', SEL_FNS, B_SEL.replace('2 LISTED rules in the concrete list shape named by the harness (older slot, newer slot)', 'ONE listed own-type rule + one unlisted rule') + '; context: CreateContractWithCtorHostFn', tier='thorough'),
     A('select_any_accepts', SEL_FNS, B_SEL_ANY + CALLCTX + PINNED, must_succeed=True),
     A('select_create_any_accepts', SEL_FNS, B_SEL_ANY + '; context: CreateContractHostFn' + PINNED, must_succeed=True, tier='thorough'),
     A('check_auth_one_default_rule', AUTH_FNS + EXAMPLE_AUTH, B_ONE + CALLCTX + '; through the example account\'s __check_auth'),
@@ -70,7 +70,7 @@ C03 = [
     A('check_auth_one_own_rule_accepts', AUTH_FNS, B_ONE + '; context: CreateContractWithCtorHostFn' + PINNED, must_succeed=True, tier='thorough'),
     A('select_own_own_2pol', SEL_FNS, B_SEL2 + CALLCTX, tier='thorough'),
     A('select_own_default_2pol', SEL_FNS, B_SEL2 + CALLCTX, tier='thorough'),
-    A('select_default_default_2pol', SEL_FNS, B_SEL2 + '; context: CreateContractWithCtorHostFn', tier='thorough'),
+    A('select_default_default_2pol', SEL_FNS, B_SEL2 + CALLCTX, tier='thorough'),
     A('check_auth_own_and_default_rule', AUTH_FNS, B_TWO + CALLCTX, tier='thorough'),
     A('check_auth_2ctx_one_default_rule', AUTH_FNS, B_2CTX, tier='thorough'),
 ]
